@@ -31,7 +31,9 @@
 (*   the chain is long enough for filter-header checkpoints to matter.      *)
 (* act = [op, res, p, n, d, why].  Environment ops: Up, Drop, Extend, Reorg, *)
 (* Settle; client steps (hints for the driver, internal in the model):      *)
-(* SyncHdr, FltBegin, FltEnd, SyncFlt, Reconnect, Ban; Sample (driver only, *)
+(* SyncHdr, FltBegin, FltEnd, SyncFlt, Reconnect, Ban; HsFail (p, n = stage: *)
+(* a connection attempt that fails in the handshake), Inv (p announces the   *)
+(* tip); Extend with p # 0: announced by p first; Sample (driver only,        *)
 (* a stuttering step); Deadline with res converged | timeout | panic.       *)
 (***************************************************************************)
 EXTENDS Integers, Sequences, FiniteSets
@@ -89,6 +91,12 @@ AbsNext(abs, a, obs2) ==
        ELSE IF abs.fhs = 0 /\ CFLiar(obs2.kind[a.p]) THEN [abs EXCEPT !.fhs = 2]
        ELSE abs
   ELSE IF a.op = "Drop" /\ a.p \in 1..Len(obs2.kind) /\ obs2.kind[a.p] = "honest"
+  THEN [abs EXCEPT !.fhs = 2]
+  \* a connection attempt cut by the environment: the node is up but not connected.  For the honest peer that is
+  \* a dropped connection (out of scope from here on); a liar that starts accepting before any honest peer was
+  \* connected may be the only responder of a query.
+  ELSE IF a.op = "HsFail" /\ a.p \in 1..Len(obs2.kind)
+          /\ (obs2.kind[a.p] = "honest" \/ (abs.fhs = 0 /\ CFLiar(obs2.kind[a.p])))
   THEN [abs EXCEPT !.fhs = 2]
   ELSE abs
 
